@@ -130,6 +130,65 @@ def gen_case(rng, i, force_kind=None):
     return c
 
 
+def gen_change(rng, c):
+    """One ingredient of exchanger `c` to modify at unchanged mass flow."""
+    opts = ["pipe_k", "pipe_k", "fluid", "rough", "H", "k_g"] + (["pipe_k_inner"] if c["kind"] == "COAXIAL" else [])
+    what = rng.choice(opts)
+    if what in ("pipe_k", "pipe_k_inner"):
+        old = (c["k_p"][1] if what == "pipe_k" else c["k_p"][0]) if c["kind"] == "COAXIAL" else c["k_p"]
+        val = round(old * rng.choice([0.2, 0.5, 1.75, 3.0, 8.0]), 4)
+    elif what == "fluid":
+        val = list(rng.choice([f for f in FLUIDS if list(f) != list(c["fluid"])]))
+    elif what == "rough":
+        val = rng.choice([v for v in (1.0e-6, 1.0e-5, 1.0e-4, 5.0e-4) if v != c["rough"]])
+    elif what == "H":
+        val = round(c["H"] * rng.choice([0.5, 0.8, 1.3, 2.0]), 1)
+    else:
+        val = round(rng.uniform(0.4, 3.0), 3)
+    return {"what": what, "value": val}
+
+
+def corpus_histories():
+    base = {"H": 100.0, "D": 2.0, "dia": 0.14, "fluid": ["Water", 0.0], "k_g": 1.0, "k_s": 2.0, "rough": 1.0e-6}
+    du = dict(base, kind="DOUBLEUTUBEPARALLEL", flow=0.5, r_out=0.04216 / 2, r_in=0.03404 / 2, s=0.01856, k_p=0.4)
+    cx = dict(base, kind="COAXIAL", flow=0.8, r_inner=[0.0442 / 2, 0.050 / 2], r_outer=[0.0974 / 2, 0.110 / 2], k_p=[0.4, 0.4])
+    return [{"initial": du, "change": {"what": "pipe_k", "value": 0.7}},
+            {"initial": cx, "change": {"what": "pipe_k", "value": 1.2}},
+            {"initial": du, "change": {"what": "fluid", "value": ["PropyleneGlycol", 20.0]}},
+            {"initial": dict(du, kind="DOUBLEUTUBESERIES"), "change": {"what": "rough", "value": 5.0e-4}},
+            {"initial": du, "change": {"what": "H", "value": 150.0}},
+            {"initial": cx, "change": {"what": "H", "value": 60.0}},
+            {"initial": cx, "change": {"what": "fluid", "value": ["EthyleneGlycol", 25.0]}},
+            {"initial": du, "change": {"what": "k_g", "value": 2.2}}]
+
+
+def corpus_sequences():
+    base = {"H": 100.0, "D": 2.0, "dia": 0.14, "fluid": ["Water", 0.0], "k_g": 1.0, "k_s": 2.0, "rough": 1.0e-6}
+    du = dict(base, kind="DOUBLEUTUBEPARALLEL", flow=0.5, r_out=0.04216 / 2, r_in=0.03404 / 2, s=0.01856, k_p=0.4)
+    cx16 = dict(base, kind="COAXIAL", flow=0.8, r_inner=[0.0442 / 2, 0.050 / 2], r_outer=[0.0974 / 2, 0.110 / 2], k_p=[0.4, 16.0])
+    hi, lo = dict(du, flow=2.0), dict(du, flow=0.10)
+    return [[du, cx16], [cx16, du], [hi, lo], [lo, hi], [dict(du, kind="DOUBLEUTUBESERIES", flow=1.0), cx16, lo, hi]]
+
+
+def gen_sequence(rng, i):
+    """2-4 DIFFERENT exchangers whose matching pipe conductivities are far apart (flow regime and pipe material vary)."""
+    kind = i % 3
+    if kind == 0:       # same exchanger at a turbulent and at a laminar flow rate, both orders
+        a = gen_case(rng, 0, rng.choice(["DOUBLEUTUBEPARALLEL", "DOUBLEUTUBESERIES"]))
+        a["fluid"] = ["Water", 0.0]
+        hi, lo = dict(a, flow=round(rng.uniform(1.0, 2.5), 3)), dict(a, flow=round(rng.uniform(0.04, 0.12), 4))
+        return [hi, lo] if i % 2 else [lo, hi]
+    if kind == 1:       # plastic double-U and a coaxial with a metal outer pipe, both orders
+        a = gen_case(rng, 0, rng.choice(["DOUBLEUTUBEPARALLEL", "DOUBLEUTUBESERIES"]))
+        a["k_p"] = round(rng.uniform(0.3, 0.6), 3)
+        a["flow"] = round(rng.uniform(0.3, 1.5), 3)
+        b = gen_case(rng, 0, "COAXIAL")
+        b["k_p"] = [round(rng.uniform(0.1, 0.6), 3), round(rng.uniform(8.0, 20.0), 2)]
+        b["flow"] = round(rng.uniform(0.4, 1.5), 3)
+        return [a, b] if i % 2 else [b, a]
+    return [gen_case(rng, rng.randrange(3)) for _ in range(rng.randint(2, 4))]
+
+
 def corpus_cases():
     base = {"H": 100.0, "D": 2.0, "dia": 0.14, "fluid": ["Water", 0.0], "k_g": 1.0, "k_s": 2.0, "rough": 1.0e-6}
     du = dict(base, r_out=0.04216 / 2, r_in=0.03404 / 2, s=0.01856, k_p=0.4)
@@ -193,37 +252,55 @@ def independent_bulk(case, fluid_props, m_flow):
 
 
 # ----------------------------------------------------------------------------------------- real code
-def run_impl(case):
-    """Run the real conversion on one case (worker process).  Everything returned is a plain float / str."""
-    import numpy as np
-    import pygfunction as gt
+def case_mass_flow(case, rho):
+    """Mass flow per borehole: fixed by the case when a history keeps it across a fluid change."""
+    return float(case["m_flow"]) if case.get("m_flow") is not None else case["flow"] / 1000.0 * rho
 
+
+def build_exchanger(case):
+    """A fresh exchanger for `case` (real code)."""
     import ghedesigner.borehole_heat_exchangers as B
-    import ghedesigner.utilities as U
     from ghedesigner.borehole import GHEBorehole
     from ghedesigner.enums import BHPipeType
     from ghedesigner.media import GHEFluid, Grout, Pipe, Soil
 
     kind = case["kind"]
+    fluid = GHEFluid(fluid_str=case["fluid"][0], percent=case["fluid"][1])
+    grout = Grout(case["k_g"], 3901000.0)
+    soil = Soil(case["k_s"], 2343493.0, 18.3)
+    bh = GHEBorehole(case["H"], case["D"], case["dia"] / 2.0, x=0.0, y=0.0)
+    if kind == "COAXIAL":
+        pipe = Pipe((0, 0), list(case["r_inner"]), list(case["r_outer"]), 0, case["rough"], list(case["k_p"]), 1542000.0)
+    else:
+        n_u = 1 if kind == "SINGLEUTUBE" else 2
+        pipe = Pipe(Pipe.place_pipes(case["s"], case["r_out"], n_u), case["r_in"], case["r_out"], case["s"],
+                    case["rough"], case["k_p"], 1542000.0)
+    with ghelib.quiet():
+        return B.get_bhe_object(BHPipeType[kind], case_mass_flow(case, fluid.rho), fluid, bh, pipe, grout, soil)
+
+
+def run_impl(case, bhe=None):
+    """Run the real conversion on one case (worker process).  Everything returned is a plain float / str.
+    With `bhe` given, convert THAT live object (history stream); `case` then describes its current ingredients."""
+    import numpy as np
+    import pygfunction as gt
+
+    import ghedesigner.borehole_heat_exchangers as B
+    import ghedesigner.utilities as U
+    from ghedesigner.media import GHEFluid
+
+    kind = case["kind"]
     out = {"impl_file": B.__file__}
     try:
+        # fluid properties for the oracle come from the case, not from the live object
         fluid = GHEFluid(fluid_str=case["fluid"][0], percent=case["fluid"][1])
-        grout = Grout(case["k_g"], 3901000.0)
-        soil = Soil(case["k_s"], 2343493.0, 18.3)
-        bh = GHEBorehole(case["H"], case["D"], case["dia"] / 2.0, x=0.0, y=0.0)
-        if kind == "COAXIAL":
-            pipe = Pipe((0, 0), list(case["r_inner"]), list(case["r_outer"]), 0, case["rough"], list(case["k_p"]), 1542000.0)
-        else:
-            n_u = 1 if kind == "SINGLEUTUBE" else 2
-            pipe = Pipe(Pipe.place_pipes(case["s"], case["r_out"], n_u), case["r_in"], case["r_out"], case["s"],
-                        case["rough"], case["k_p"], 1542000.0)
-        m_flow = case["flow"] / 1000.0 * fluid.rho
+        m_flow = case_mass_flow(case, fluid.rho)
         out["fluid"] = [float(fluid.mu), float(fluid.rho), float(fluid.k), float(fluid.cp)]
         out["m_flow"] = float(m_flow)
         if kind != "SINGLEUTUBE":
             out["ovols"], out["hf"] = independent_bulk(case, out["fluid"], float(m_flow))
-        with ghelib.quiet():
-            bhe = B.get_bhe_object(BHPipeType[kind], m_flow, fluid, bh, pipe, grout, soil)
+        if bhe is None:
+            bhe = build_exchanger(case)
     except Exception as e:  # construction failed: not a C15 matter, reported as a skipped case
         out["construct_error"] = f"{type(e).__name__}: {e}"
         return out
@@ -354,6 +431,149 @@ def _worker(case):
         return {"harness_error": f"{type(e).__name__}: {e}", "tb": traceback.format_exc()[-1500:]}
 
 
+# ----------------------------------------------------------------------------------------- call histories
+def apply_change(bhe, case, change):
+    """Modify one ingredient of the LIVE exchanger at unchanged mass flow, bring the object itself up to date the way a
+    user would (calc_fluid_pipe_resistance + update_thermal_resistances), and return the case describing its new state."""
+    from ghedesigner.media import GHEFluid
+
+    c1 = {k: (list(v) if isinstance(v, list) else v) for k, v in case.items() if k not in ("whatif", "name")}
+    c1["m_flow"] = float(bhe.m_flow_borehole)
+    what, val = change["what"], change["value"]
+    coax = case["kind"] == "COAXIAL"
+    if what == "pipe_k":            # double-U: the tubes; coaxial: the OUTER pipe
+        if coax:
+            bhe.pipe.k = [bhe.pipe.k[0], val]
+            c1["k_p"] = [case["k_p"][0], val]
+        else:
+            bhe.pipe.k = val
+            c1["k_p"] = val
+    elif what == "pipe_k_inner":
+        bhe.pipe.k = [val, bhe.pipe.k[1]]
+        c1["k_p"] = [val, case["k_p"][1]]
+    elif what == "fluid":
+        bhe.fluid = GHEFluid(fluid_str=val[0], percent=val[1])
+        c1["fluid"] = list(val)
+    elif what == "rough":
+        bhe.pipe.roughness = val
+        if coax:
+            bhe.roughness = val
+        c1["rough"] = val
+    elif what == "H":
+        bhe.b.H = val
+        c1["H"] = val
+    elif what == "k_g":
+        bhe.grout.k = val
+        bhe.k_g = val
+        c1["k_g"] = val
+    else:
+        raise ValueError(what)
+    if what != "H":
+        bhe.calc_fluid_pipe_resistance()
+        if coax:
+            bhe.update_thermal_resistances(bhe.R_ff, bhe.R_fp)
+        else:
+            bhe.update_thermal_resistances(bhe.R_fp)
+    return c1
+
+
+def _history_worker(job):
+    """One exchanger object: convert, change an ingredient, convert again.  Returns [first, second] results and the
+    case describing the final state."""
+    try:
+        c0, change = job["initial"], job["change"]
+        bhe = build_exchanger(c0)
+        r0 = run_impl(c0, bhe)
+        c1 = apply_change(bhe, c0, change)
+        r1 = run_impl(c1, bhe)
+        return {"r0": r0, "r1": r1, "final": c1}
+    except Exception as e:
+        import traceback
+        return {"harness_error": f"{type(e).__name__}: {e}", "tb": traceback.format_exc()[-1500:]}
+
+
+def _sequence_worker(seq):
+    """Different exchangers converted one after the other in ONE process."""
+    try:
+        return [run_impl(c) for c in seq]
+    except Exception as e:
+        import traceback
+        return {"harness_error": f"{type(e).__name__}: {e}", "tb": traceback.format_exc()[-1500:]}
+
+
+def fresh_map(fn, items, workers=16):
+    """Process-pool map with ONE task per process: every conversion starts in a process that has never converted
+    anything (so a single case replays alone, and process-wide state is exercised only by the sequence stream)."""
+    import multiprocessing as mp
+
+    if not items:
+        return []
+    with mp.get_context("fork").Pool(min(workers, len(items)), maxtasksperchild=1) as p:
+        return p.map(fn, items, chunksize=1)
+
+
+CMP_FIELDS = ("r_in", "r_out", "k_p", "k_g", "r_b", "s", "R_fp", "R_f", "h_f", "H", "D", "m_flow", "rough")
+
+
+def conversion_diff(ra, rb, tol=1e-10):
+    """Fields in which two conversions of the same exchanger state differ (None if they agree)."""
+    if ("single" in ra) != ("single" in rb):
+        return [f"one raised ({ra.get('raised')}/{rb.get('raised')})"]
+    if "single" not in ra:
+        return None if ra.get("raised") == rb.get("raised") else [f"raised {ra.get('raised')} vs {rb.get('raised')}"]
+    d = []
+    for k in CMP_FIELDS:
+        if not close(ra["single"][k], rb["single"][k], tol):
+            d.append(f"{k}: {ra['single'][k]!r} vs {rb['single'][k]!r}")
+    for k in ("rb_single", "rb_orig"):
+        if not close(ra[k], rb[k], 1e-9):
+            d.append(f"{k}: {ra[k]!r} vs {rb[k]!r}")
+    for k, a, b in zip(("vol_fluid", "vol_pipe", "resist_conv", "resist_pipe"), ra["vols"], rb["vols"]):
+        if not close(a, b, tol):
+            d.append(f"{k}: {a!r} vs {b!r}")
+    if len(ra["calls"]) != len(rb["calls"]):
+        d.append(f"solve_root calls: {len(ra['calls'])} vs {len(rb['calls'])}")
+    else:
+        for n, (ca, cb) in enumerate(zip(ra["calls"], rb["calls"])):
+            for k in ("lower", "upper", "ret"):
+                if not close(ca.get(k, float("nan")), cb.get(k, float("nan")), tol):
+                    d.append(f"solve_root#{n}.{k}: {ca.get(k)!r} vs {cb.get(k)!r}")
+    return d or None
+
+
+def bulk_failures(c, r, ref):
+    """C15 predicates on conversion `r` for the exchanger state `c` (independent oracle inside r), relative to what a
+    fresh conversion `ref` of the same state achieves (known clamp findings hit both alike)."""
+    if "single" not in r:
+        return [f"to_single raised {r.get('raised')}"] if "single" in ref else []
+    sg, orc = r["single"], r["oracle"]
+    out = []
+    of, ow = oracle_volumes(c)
+    gf = 2 * PI * core.frac(sg["r_in"]) ** 2
+    gw = 2 * PI * (core.frac(sg["r_out"]) ** 2 - core.frac(sg["r_in"]) ** 2)
+    if abs(gf - of) / of > VOL_TOL:
+        out.append(f"fluid volume {float(gf)!r} vs {float(of)!r}")
+    if abs(gw - ow) / ow > VOL_TOL:
+        out.append(f"pipe-wall volume {float(gw)!r} vs {float(ow)!r}")
+    if sg["H"] != c["H"] or sg["D"] != c["D"] or not close(sg["m_flow"], r["m_flow"], 1e-15):
+        out.append(f"borehole length/depth/flow H={sg['H']} D={sg['D']} m={sg['m_flow']} vs {c['H']}, {c['D']}, {r['m_flow']}")
+    vf, vp, rc, rp = r["ovols"]
+    target = rc + rp
+    kfin = sg["k_p"]
+    delta = 1.01 * (1e-6 + 1e-6 * kfin)
+    allowed = (orc["c_log"] / kfin) * delta / (kfin - delta) if kfin > delta else float("inf")
+    err = abs(sg["R_fp"] - target)
+    ref_err = abs(ref["single"]["R_fp"] - target) if "single" in ref else float("inf")
+    if err > allowed + 1e-12 * target and err > ref_err * (1 + 1e-6) + 1e-12 * target:
+        out.append(f"R_fp' {sg['R_fp']!r} vs R_conv+R_pipe {target!r} (rel {err / target:.3g}; a fresh conversion of the same exchanger is off by {ref_err / target:.3g})")
+    if "single" in ref:
+        e1 = abs(r["rb_single"] - r["rb_orig"]) / r["rb_orig"]
+        e2 = abs(ref["rb_single"] - ref["rb_orig"]) / ref["rb_orig"]
+        if e1 > RB_TOL and e1 > e2 * (1 + 1e-6) + 1e-9:
+            out.append(f"R_b' {r['rb_single']!r} vs R_b {r['rb_orig']!r} (rel {e1:.3g}; fresh conversion: {e2:.3g})")
+    return out
+
+
 # ----------------------------------------------------------------------------------------- solve_root alone
 def solve_root_cases(rng, n):
     """Synthetic objectives for utilities.solve_root: all sign patterns, zeros, scalar kinds, default bounds."""
@@ -425,13 +645,18 @@ def fits(sg):
 def run(ctx: core.Ctx):
     import ghedesigner.borehole_heat_exchangers as B
 
-    ctx.rule = ("random double-U (series/parallel), coaxial and single-U exchangers that fit their borehole "
-                "(diameter 0.09-0.26 m, SDR 9-21, 5 fluids x 2 concentrations, 0.015-2 L/s i.e. laminar to turbulent, "
-                "k_grout 0.4-3, k_soil 0.5-5, k_pipe 0.1-0.8), plus corpus; distinct = distinct input dicts; "
-                "non-trivial = a double-U/coaxial conversion that ran both root solves (single-U identity cases and "
-                "solve_root sign-pattern cases are counted separately in the histogram)")
+    ctx.rule = ("random double-U (series/parallel), coaxial and single-U exchangers that fit their borehole (diameter 0.075-0.30 m, "
+                "SDR 7-21 / thin-walled 0.6-10 % / thick walls, 5 fluids x 2 concentrations, 0.015-2 L/s i.e. laminar to turbulent, "
+                "k_grout 0.4-3, k_soil 0.5-5, k_pipe 0.03-20, coaxial inner/outer pipes of different material in 3 of 4 cases), plus corpus, "
+                "each converted in a process of its own; call histories on ONE exchanger object (convert, change pipe k / fluid / roughness / "
+                "H / k_grout at unchanged flow, convert again: compared with a fresh conversion of the final state); sequences of 2-4 DIFFERENT "
+                "exchangers converted in ONE process (pipe-conductivity solutions > 10x apart in both orders: compared with fresh-process "
+                "conversions); distinct = distinct input dicts / histories / sequences; non-trivial = a double-U/coaxial conversion that ran "
+                "both root solves, a history, a sequence (single-U identity and solve_root sign-pattern cases are counted in the histogram)")
     ctx.trusted_base += [
-        "translator plug-in translate/gen_equivtube.py (constants + 3 structural facts read from borehole_heat_exchangers.py / utilities.py)",
+        "translator plug-in translate/gen_equivtube.py (constants + 3 structural facts read from borehole_heat_exchangers.py / utilities.py; it also "
+        "pins that the conversion functions, their classes and modules keep no state: no attribute/item assignment on self, a class or the module, "
+        "no __dict__/getattr/setattr/global, no class-level or module-level variables, no decorators)",
         "hand-written scalar-polymorphic model Model/EquivTube.lean; its Float instantiation is tied to the code by differential runs (1e-12), "
         "its Rat instantiation of solve_root / enlarge by exact comparison; the theorems are about the R instantiation of the same definitions",
         "pygfunction (convection correlations, multipole effective borehole resistance), scipy.optimize.brentq: parameters of the model; "
@@ -503,12 +728,17 @@ def run(ctx: core.Ctx):
     # ------------------------------------------------------------------ conversions on real exchangers
     n = 360 if quick else 6000
     cases = corpus_cases()
+    replay_job = None
     if ctx.replay:
         # ./check C15 --replay replays/C15-<seed>-<n>.json : run exactly that exchanger
         j = json.loads(open(ctx.replay).read())
         j = j.get("replay", j)
+        if "history" in j or "sequence" in j:
+            replay_job = j
         j = j.get("case", j)
-        if isinstance(j, dict) and "kind" in j:
+        if replay_job is not None:
+            cases, n = [], 0
+        elif isinstance(j, dict) and "kind" in j:
             cases, n = [j], 0
         else:
             ctx.infra(f"replay file {ctx.replay} holds no exchanger case")
@@ -521,7 +751,36 @@ def run(ctx: core.Ctx):
         if c["kind"] != "SINGLEUTUBE" and k < n_whatif:
             c["whatif"] = True
             k += 1
-    res = core.pool_map(_worker, cases, chunksize=4)
+    # ---- call histories on ONE object and sequences of DIFFERENT exchangers in ONE process; the reference of every
+    #      state is its conversion in a fresh process (appended to the main stream, so it also gets every predicate)
+    hist_jobs, seq_jobs = [], []
+    if not ctx.replay:
+        hist_jobs = corpus_histories()
+        for i in range(40 if quick else 500):
+            c0 = gen_case(rng, i, KINDS[i % 3])
+            hist_jobs.append({"initial": c0, "change": gen_change(rng, c0)})
+        seq_jobs = corpus_sequences() + [gen_sequence(rng, i) for i in range(30 if quick else 400)]
+        seq_jobs = [[c for c in sq if c["kind"] != "SINGLEUTUBE"] for sq in seq_jobs]
+        seq_jobs = [sq for sq in seq_jobs if len(sq) >= 2]
+    elif replay_job is not None:
+        if "history" in replay_job:
+            hist_jobs = [replay_job["history"]]
+        if "sequence" in replay_job:
+            seq_jobs = [replay_job["sequence"]]
+    seq_ref = []
+    for sq in seq_jobs:
+        seq_ref.append(list(range(len(cases), len(cases) + len(sq))))
+        cases.extend(dict(c) for c in sq)
+    hist_res = fresh_map(_history_worker, hist_jobs)
+    hist_ref = []
+    for hj, hr in zip(hist_jobs, hist_res):
+        if "final" in hr:
+            hist_ref.append(len(cases))
+            cases.append(dict(hr["final"]))
+        else:
+            hist_ref.append(None)
+    seq_res = fresh_map(_sequence_worker, seq_jobs)
+    res = fresh_map(_worker, cases)
 
     # stage 1: volumes
     idx_multi, lines = [], []
@@ -783,6 +1042,66 @@ def run(ctx: core.Ctx):
                         disagree("refresh-variant-correspondence", i, f"model(groutRefresh=1) {model_fix[i]} vs what-if {wi}")
             else:
                 ctx.count("whatif-refresh:no-k_g-in-[0.01,7]-matches")
+
+    # ------------------------------------------------------------------ call histories on one exchanger object
+    for hj, hr, ri in zip(hist_jobs, hist_res, hist_ref):
+        if "harness_error" in hr or ri is None:
+            ctx.infra(f"history job failed: {hr.get('harness_error')}")
+            continue
+        c1, r1, ref = hr["final"], hr["r1"], res[ri]
+        what = hj["change"]["what"]
+        ctx.count(f"history:{hj['initial']['kind']}:change-{what}")
+        ctx.case(("history", json.dumps(hj, sort_keys=True)), True, {"history": hj} if len(ctx.samples) < 5 and what == "pipe_k" else None)
+        if "harness_error" in ref or "construct_error" in ref or "construct_error" in r1:
+            ctx.count("history:skipped")
+            continue
+        d = conversion_diff(r1, ref)
+        if d is None:
+            ctx.count("history:second-conversion == fresh conversion of the final state")
+            continue
+        replay = {"case": c1, "history": hj, "second_conversion": {k: v for k, v in r1.items() if k != "calls"},
+                  "fresh_conversion_of_final_state": {k: v for k, v in ref.items() if k != "calls"}, "differences": d}
+        fails = bulk_failures(c1, r1, ref)
+        desc = (f"exchanger {hj['initial']['kind']} converted, then {what} := {hj['change']['value']} at unchanged flow, converted again: "
+                f"the second conversion differs from a fresh conversion of the same final state ({'; '.join(d[:3])})")
+        if fails:
+            ctx.finding(f"history-stale-conversion:{what}", desc + " and violates: " + "; ".join(fails[:3]), replay)
+        else:
+            ctx.disagreements_checked += 1
+            if "history-correspondence" not in ctx.broken:
+                ctx.broken.append("history-correspondence")
+                ctx.extra["history-correspondence_first"] = {"history": hj, "differences": d[:6]}
+
+    # ------------------------------------------------------------------ sequences of different exchangers in one process
+    for sq, sr, refs in zip(seq_jobs, seq_res, seq_ref):
+        if isinstance(sr, dict):
+            ctx.infra(f"sequence job failed: {sr.get('harness_error')}")
+            continue
+        ks = [res[i]["single"]["k_p"] for i in refs if "single" in res[i]]
+        ratio = max(ks) / min(ks) if len(ks) >= 2 and min(ks) > 0 else 1.0
+        ctx.count("sequence:pipe-conductivity solutions " + ("> 100x apart" if ratio > 100 else "10-100x apart" if ratio > 10 else "within 10x"))
+        ctx.case(("sequence", json.dumps(sq, sort_keys=True)), True)
+        for pos_, (c, r, i) in enumerate(zip(sq, sr, refs)):
+            ref = res[i]
+            if "harness_error" in ref or "construct_error" in ref or "construct_error" in r:
+                continue
+            d = conversion_diff(r, ref)
+            if d is None:
+                ctx.count("sequence:member == its fresh-process conversion")
+                continue
+            replay = {"case": c, "sequence": sq, "position": pos_, "in_sequence": {k: v for k, v in r.items() if k != "calls"},
+                      "fresh_process": {k: v for k, v in ref.items() if k != "calls"}, "differences": d,
+                      "solve_root_calls_in_sequence": r.get("calls"), "solve_root_calls_fresh": ref.get("calls")}
+            fails = bulk_failures(c, r, ref)
+            desc = (f"{c['kind']} converted as number {pos_ + 1} of {len(sq)} exchangers in one process differs from its conversion in a fresh "
+                    f"process ({'; '.join(d[:3])})")
+            if fails:
+                ctx.finding(f"conversion-depends-on-previous-conversions:{'first' if pos_ == 0 else 'later'}-in-sequence", desc + " and violates: " + "; ".join(fails[:3]), replay)
+            else:
+                ctx.disagreements_checked += 1
+                if "sequence-correspondence" not in ctx.broken:
+                    ctx.broken.append("sequence-correspondence")
+                    ctx.extra["sequence-correspondence_first"] = {"sequence": sq, "position": pos_, "differences": d[:6]}
 
     # Rat instantiation of the enlargement rule (exact) on every case
     enl = [(i, res[i]["_enl_line"]) for i in idx_multi if "_enl_line" in res[i]]
